@@ -112,7 +112,8 @@ def correspondence(ctx):
                     except B.ForeignVersion:
                         states.append("foreign")
                     text = str(r)
-                    if op in ("simplify",) or (op == "parse-flags" and simplified_text is None and False):
+                    if op == "simplify" or (op.startswith("parse-flags") and op[-2] == "1"):
+                        # a simplification, by either route: from here on the canonical text must not change
                         if simplified_text is None:
                             simplified_text = text
                     if why is None and simplified_text is not None and text != simplified_text:
